@@ -227,6 +227,38 @@ def walk_atoms(m, acc=None):
     return acc
 
 
+def _conjunctions(markers, limit: int = 400):
+    """Atom lists that have to hold together: the atom children of every MultiMarker, and every atom that stands
+    alone (top level or as a direct alternative of a MarkerUnion)."""
+    from dep_logic.markers import MarkerUnion, MultiMarker
+    from dep_logic.markers.single import SingleMarker
+
+    out = []
+    seen = set()
+
+    def visit(m, lone=True):
+        if len(out) >= limit or id(m) in seen:
+            return
+        seen.add(id(m))
+        if isinstance(m, SingleMarker):
+            if lone:
+                out.append([m])
+        elif isinstance(m, MultiMarker):
+            atoms = [c for c in m.markers if isinstance(c, SingleMarker)]
+            if atoms:
+                out.append(atoms)
+            for c in m.markers:
+                if not isinstance(c, SingleMarker):
+                    visit(c, lone=False)
+        elif isinstance(m, MarkerUnion):
+            for c in m.markers:
+                visit(c, lone=True)
+
+    for m in markers:
+        visit(m)
+    return out
+
+
 def names_of(m) -> set:
     return {a.name for a in walk_atoms(m)}
 
@@ -403,6 +435,50 @@ def environments(rnd: random.Random, markers, cap: int, *, prerelease: bool = Fa
         e["extra"] = x
         envs.append(e)
     rnd.shuffle(envs)
+    # witness environments: for every conjunction (and every lone atom) an assignment that makes its positive
+    # string atoms true at once - random crossing alone almost never satisfies `v1 == "a" and v2 == "b" and ...`
+    wit = []
+    conjs = _conjunctions(markers)
+    for ci, conj in enumerate(conjs * 2):
+        e = rand_env()
+        if ci >= len(conjs):
+            # isolating flavour: every other variable takes a value no literal mentions, the version variables an
+            # extreme - so that (as far as possible) this conjunction is the only thing that holds
+            for v in list(e):
+                if v in ("python_full_version", "python_version"):
+                    e["python_full_version"] = rnd.choice(["2.7.18", "3.0.1", "3.13.0"] if not prerelease else ["2.7.18rc1", "3.13.0rc1"])
+                elif v == "platform_release":
+                    e[v] = rnd.choice(["0.1", "99.0"])
+                elif v == "extra":
+                    e[v] = "" if (str_extra_only or rnd.random() < 0.5) else set()
+                else:
+                    e[v] = "§other"
+        hit = False
+        for a in conj:
+            nm = getattr(a, "name", None)
+            if nm in ("python_version", "python_full_version", "platform_release") or nm is None:
+                continue
+            vals = atom_values(a)
+            op = getattr(a, "op", "==" if type(a).__name__ == "EqualityMarkerUnion" else "!=")
+            if getattr(a, "reversed", False) or not vals:
+                continue
+            if op == "==":
+                if nm == "extra" and isinstance(e.get("extra"), set) and not str_extra_only:
+                    e[nm] = e[nm] | {vals[0]}     # several `extra ==` atoms of one conjunction hold together
+                else:
+                    e[nm] = vals[0] if nm != "extra" or str_extra_only or rnd.random() < 0.5 else {vals[0]}
+                hit = True
+            elif op == "in" and nm != "extra":
+                parts = [x for x in vals[0].replace(",", " ").split() if x] or [vals[0]]
+                e[nm] = rnd.choice(parts + [vals[0]])
+                hit = True
+        if hit:
+            wit.append(e)
+    if wit:
+        rnd.shuffle(wit)
+        wit = wit[:max(4, cap // 3)]
+        # conjunctions over extra: all named extras at once
+        envs = wit + envs
     envs = envs[:cap]
     while len(envs) < min(cap, 12):
         envs.append(rand_env())
